@@ -104,9 +104,13 @@ def numel(shape):
 # ----------------------------------------------------------------------------- families
 
 class Fam:
-    def __init__(self, name, fn, ref, gen, call, res, cls, quick=60, thorough=600, dtypes=None):
+    """chk: 1 = coq/Torch/Check.v (`call`), 2 = coq/Torch/Check2.v (`call2`); mod: module of torch_lib.ops holding `fn`;
+    floors: {label: (predicate(args, kwargs), minimum number of agreeing cases per quick run)} -- classes the generator must hit."""
+
+    def __init__(self, name, fn, ref, gen, call, res, cls, quick=60, thorough=600, dtypes=None, chk=1, mod="core", floors=None):
         self.name, self.fn, self.ref, self.gen, self.call, self.res, self.cls = name, fn, ref, gen, call, res, cls
         self.quick, self.thorough = quick, thorough
+        self.chk, self.mod, self.floors = chk, mod, floors or {}
 
 
 def T():
@@ -373,4 +377,6 @@ def build():
         lambda a, k: f"(CArange {z(a[0])} {z(a[1])} {z(a[2])})",
         lambda a, k, out: rdata(out),
         lambda a, k: (np.sign(a[2]), np.sign(a[1] - a[0]), (a[1] - a[0]) % a[2] == 0)))
+    from harness import c08_fams2
+    F.extend(c08_fams2.build(torch))
     return F
